@@ -77,6 +77,8 @@ func DateTimeFromProto(proto *dtpb.DateTime) (DateTime, error) {
 	var l layout
 	switch proto.Precision {
 	case dtpb.DateTime_MICROSECOND:
+		// the highest precision of a System DateTime is the millisecond: nothing finer may stay behind in the value
+		t = t.Truncate(time.Millisecond)
 		fallthrough
 	case dtpb.DateTime_MILLISECOND:
 		l = dtMillisecondLayoutTZ
